@@ -22,7 +22,7 @@ TEXTS = {
         "technique": "differential runtime monitoring against an independent spec-level writer's ground truth",
     },
     "C04": {
-        "level_text": "Lock-step sequential-model monitor over edit histories: every sequence of <=4 (quick) / <=6 (thorough) operations over an 11-symbol alphabet (adjacent ids, colliding contents, save+reopen sync/async) from two start states, plus long random histories over up to 10^3 ids with periodic save+reopen in all codecs; after every operation the whole observable state (lookups by id and by coordinates, listing, count) is compared with a BTreeMap model and the in-crate store report (feature verif) must show no internal disagreement. Evidence includes the op x abstract-pre-state transition matrix.",
+        "level_text": "Lock-step sequential-model monitor over edit histories: every sequence of <=5 (quick) / <=6 (thorough) operations over an 11-symbol alphabet (adjacent ids, colliding contents, save+reopen sync/async) from two start states, plus long random histories over up to 10^3 ids with periodic save+reopen in all codecs; after every operation the whole observable state (lookups by id and by coordinates, listing, count) is compared with a BTreeMap model and the in-crate store report (feature verif) must show no internal disagreement. Evidence includes the op x abstract-pre-state transition matrix.",
         "level_note": "Trusted: the BTreeMap model; the verif hook only reads the three internal maps. Bounded-exhaustive part is exhaustive only for the stated alphabet and length.",
         "technique": "runtime monitoring against an executable sequential model (bounded-exhaustive + random histories) with an in-crate invariant hook",
     },
@@ -37,7 +37,7 @@ TEXTS = {
         "technique": "runtime monitoring of the writer's output structure with an independent decoder (size-steered boundary inputs)",
     },
     "C07": {
-        "level_text": "Differential runtime monitor: the library's tile_id/zxy are compared in both directions with the specification's rotate/flip Hilbert algorithm for every id of zooms 0..10 (quick) / 0..15 (thorough) plus boundary and random points at every zoom and u64 ids beyond zoom 31; structural clauses (adjacency, zoom blocks, children blocks) are asserted on the library's own outputs; coordinate lookups outside the grid (z up to 255) run against archives holding the aliased tile and must answer None/Err without panicking (overflow checks on).",
+        "level_text": "Differential runtime monitor: the library's tile_id/zxy are compared in both directions with the specification's rotate/flip Hilbert algorithm for every id of zooms 0..13 (quick) / 0..15 (thorough) plus boundary and random points at every zoom and u64 ids beyond zoom 31; structural clauses (adjacency, zoom blocks, children blocks) are asserted on the library's own outputs; coordinate lookups outside the grid (z up to 255) run against archives holding the aliased tile and must answer None/Err without panicking (overflow checks on).",
         "level_note": "Trusted: the reference Hilbert implementation (self-tested against the spec's published vectors). Zooms above the exhaustive bound are sampled, not enumerated.",
         "technique": "differential runtime monitoring against the spec's Hilbert algorithm, exhaustive to a zoom bound, + panic/overflow observer on lookups",
     },
@@ -47,7 +47,7 @@ TEXTS = {
         "technique": "runtime monitoring with a panic/abort/overflow observer under crafted, exhaustive-small and structure-aware mutated inputs; ASan + Miri layers in thorough",
     },
     "C09": {
-        "level_text": "Differential runtime monitor: headers are packed by an independent 127-byte packer, parsed by the library and re-serialised; bytes must be reproduced for every stored coordinate value visited (all 2^32 in the thorough tier, every 4099th in quick), parsed fields must equal the packed ones, degrees must be stored as the nearest multiple of 1e-7, the reader must consume exactly 127 bytes under short reads / Pending, and every malformed class (magic, version, enum codes, truncations) must be rejected with an error.",
+        "level_text": "Differential runtime monitor: headers are packed by an independent 127-byte packer, parsed by the library and re-serialised; bytes must be reproduced for every stored coordinate value visited (all 2^32 in the thorough tier, every 37th in quick), parsed fields must equal the packed ones, degrees must be stored as the nearest multiple of 1e-7, the reader must consume exactly 127 bytes under short reads / Pending, and every malformed class (magic, version, enum codes, truncations) must be rejected with an error.",
         "level_note": "Trusted: refimpl header_pack/header_unpack. The u64 fields are sampled at boundary/random values, not enumerated.",
         "technique": "differential runtime monitoring against an independent header codec (exhaustive over stored coordinate values in thorough)",
     },
